@@ -24,7 +24,12 @@ RULE = ("perm: L1 on the real clp / tokenregistry message servers and the real i
         "five of the transaction histories names such a denom and a quarter of their edits are voucher shaped; (f) re-registration of an "
         "ALREADY registered denom (cusdc with a pool, cdash without, rowan) through MsgRegister with an empty (nil and zero-length), "
         "shrunk, grown or identical permission list, changed decimals, changed unit denom (13 shapes), followed at once by every gated "
-        "message on that denom. Every registry message is rendered from the message as SENT (the handler gets its own copy) and has its own "
+        "message on that denom. (g) pools carrying margin liabilities (written on the "
+        "stored pool as x/margin's Borrow leaves them; 4 fixed and n/6 random configurations), where the raw balance ratio and the depth "
+        "ratio CalculatePoolUnits classifies by differ: adds exactly at the raw ratio, exactly at the depth ratio, at three points strictly "
+        "between them, one base unit off, and outside on both sides, under all 16 combinations of DISABLE_BUY / DISABLE_SELL on rowan and on "
+        "the pool token; the judge classifies by the depths (balance + liabilities) read from the stored pool. "
+        "Every registry message is rendered from the message as SENT (the handler gets its own copy) and has its own "
         "chk c12.regstored: the registry as stored afterwards (raw KV bytes) equals the edit applied to the registry as stored before. Compared: registry after every edit, pass/refuse of every message (transfer: refused by the "
         "wrapper or reached the ibc-go stub), whether a refused handler wrote to its own cached state. chk: accepted => decision table "
         "holds on the registry AS STORED (bytes read from the tokenregistry KV store of the context the message ran on and decoded, "
